@@ -38,6 +38,16 @@ def gen_path_value(rng, tkind, index):
     r = rng.random()
     name = rng.choice(['f', 'a b', 'x%y', 'é', 'n+m', 'q?', 'long' * 8]) + str(index % 10)
     enc = spec.pct_encode(name.encode())
+    if r < 0.04:
+        # legal location (< PATH_MAX) whose escaped form is > 8 KiB
+        unit = rng.choice(['\u4e2d', '\u00e9 ', '% '])
+        comps = []
+        for lvl in range(rng.randint(9, 12)):
+            c = 'l%d' % lvl + unit * 100
+            while len(c.encode('utf-8')) > 240:
+                c = c[:-1]
+            comps.append(spec.pct_encode(c.encode('utf-8')))
+        return 'dest/' + '/'.join(comps) + '/' + enc, 'rel-long-escaped'
     if r < 0.22:
         return '@@R@@/dest/' + enc, 'abs'
     if r < 0.50:
@@ -100,6 +110,22 @@ def gen_text(rng, tkind, index):
     else:
         text = '\n\n[Trash Info]\n  Path=indented\nPath=%s\nDeletionDate=%s\n' % (pv, date)
         tclass = 'blank-and-indented'
+    if rng.random() < 0.06:
+        # a big file: unknown keys (another implementation's metadata) before,
+        # between or after the two known lines
+        pad = ''.join('X-Unknown-%d=%s\n' % (i, 'v' * 100)
+                      for i in range(rng.choice([40, 90, 200, 700])))
+        lines = text.split('\n')
+        at = rng.choice([1, 2, len(lines) - 1]) if len(lines) > 2 else 1
+        if lines[0] != '[Trash Info]' and not lines[0].startswith('[Trash Info]\r'):
+            at = len(lines) - 1
+        if tclass == 'crlf':
+            pad = pad.replace('\n', '\r\n')
+            lines = text.split('\r\n')
+            text = '\r\n'.join(lines[:at]) + '\r\n' + pad + '\r\n'.join(lines[at:])
+        else:
+            text = '\n'.join(lines[:at]) + '\n' + pad + '\n'.join(lines[at:])
+        tclass += '+big'
     return text, pclass, tclass
 
 
